@@ -167,8 +167,15 @@ type rServer struct {
 	out *rOutcome
 }
 
+var rBuildCount int
+
 func rBuild(rs []rRoute, ids []int) *rServer {
 	s := &rServer{e: echo.New(), out: &rOutcome{}}
+	rBuildCount++
+	if rBuildCount%3 == 0 {
+		// every third instance routes inside the chain, behind a pass-through Pre middleware (the other entry into Router.Find)
+		s.e.Pre(func(next echo.HandlerFunc) echo.HandlerFunc { return func(c echo.Context) error { return next(c) } })
+	}
 	for k, r := range rs {
 		id := ids[k]
 		h := func(c echo.Context) error {
